@@ -91,6 +91,9 @@ func c08Gen(rng *verifsim.RNG, idx int, tier string) *Plan {
 		// make sure something runs into it
 		p.Actions = append(p.Actions, rsAction(f.From+1000, hostAddr(1)))
 	}
+	if stop > 2*nsSec {
+		maybeReinit(rng, p, "eth0", stop/4, stop-200*nsMs, 0.2)
+	}
 	p.Actions = append(p.Actions, Action{At: stop, Kind: "signal", Sig: sig})
 	if rng.Bool(0.1) {
 		// a second signal while shutting down
@@ -203,6 +206,12 @@ func c08Iface(info *runInfo, res *verifsim.Result, h *history, ifn string, unica
 		e := &h.ev[i]
 		if e.Seq < stopSeq && e.If == ifn && e.Err != "" && e.Err != "deadline" && (e.K == "write.exit" || e.K == "fwd.exit" || e.K == "read.exit") && (e.Gen == live.gen || e.K == "fwd.exit") {
 			res.Probe("failed_before_stop")
+			return
+		}
+		// likewise a link-down event: the generation is being re-established when
+		// the stop arrives (its teardown may still be waiting for a transmission)
+		if e.K == "act.link" && e.S == "down" && e.Err == "" && e.If == ifn && e.Seq > live.dialSeq && e.Seq < stopSeq {
+			res.Probe("link_down_before_stop")
 			return
 		}
 	}
